@@ -37,7 +37,22 @@ def cases(tier, seed):
 
 
 def fmt(x, rng):
-    r = int(rng.integers(5))
+    r = int(rng.integers(10))
+    if r >= 5 and abs(x) < 1e15 and abs(x) > 1e-15:
+        # other legal spellings of a decimal number (xsd:double, and what float() reads): an explicit plus sign, no digit before
+        # or after the point, an upper-case exponent letter, a bare point ahead of the exponent
+        if r == 5:
+            k = int(rng.integers(0, 4))
+            return "%d.%s%+d" % (round(x * 10 ** k), "eE"[int(rng.integers(2))], -k)          # 25.E-1
+        if r == 6:
+            return "%+.4f" % x                                                              # +1.2500
+        if r == 7:
+            t = "%.4f" % x
+            return t.replace("0.", ".", 1) if t.startswith(("0.", "-0.")) else t             # .5000 / -.5000
+        if r == 8:
+            return "%.5E" % x                                                               # 1.25000E+00
+        return "%d." % round(x)                                                             # 5.
+    r = r % 5
     if r == 0:
         return "%.5f" % x
     if r == 1:
